@@ -545,42 +545,146 @@ func (c *Ctx) ruleM4(rule string) {
 
 // errList finds the []string variable that collects rule errors (appended to).
 func (m *engFn) errList() *ssa.Alloc {
-	var found *ssa.Alloc
+	// the lists of messages of the function (after helpers were inlined there may be several: one per
+	// stage helper that builds its own and hands it back): every []string variable that is appended to
+	isMsgList := func(al *ssa.Alloc) bool {
+		sl, ok := al.Type().(*types.Pointer).Elem().Underlying().(*types.Slice)
+		if !ok {
+			return false
+		}
+		b, ok := sl.Elem().Underlying().(*types.Basic)
+		return ok && b.Kind() == types.String
+	}
+	cells := map[*ssa.Alloc]bool{}
+	// flows[F][M]: the content of F is copied or appended into M (`M = F`, `M = append(M, F...)`)
+	flows := map[*ssa.Alloc]map[*ssa.Alloc]bool{}
 	eachInstrDeep(m.fn, func(f *ssa.Function, in ssa.Instruction) {
 		st, ok := in.(*ssa.Store)
 		if !ok {
 			return
 		}
 		al, ok := m.x.ResolveAddr(st.Addr).(*ssa.Alloc)
-		if !ok || al.Parent() != m.fn {
+		if !ok || al.Parent() != m.fn || !isMsgList(al) {
 			return
 		}
-		sl, ok := al.Type().(*types.Pointer).Elem().Underlying().(*types.Slice)
-		if !ok {
+		flow := func(from *ssa.Alloc) {
+			if from == nil || from == al || from.Parent() != m.fn || !isMsgList(from) {
+				return
+			}
+			if flows[from] == nil {
+				flows[from] = map[*ssa.Alloc]bool{}
+			}
+			flows[from][al] = true
+		}
+		if args, ok := builtinCall(st.Val, "append"); ok {
+			if m.x.Cell(args[0]) == al {
+				cells[al] = true
+			} else {
+				flow(m.x.Cell(args[0]))
+			}
+			// append(M, F...): the second argument is a whole list, not a fresh array of elements
+			if len(args) == 2 {
+				if c2 := m.x.Cell(args[1]); c2 != nil {
+					if _, isSl := m.x.Origin(args[1]).(*ssa.Slice); !isSl {
+						flow(c2)
+					}
+				}
+			}
 			return
 		}
-		if b, ok := sl.Elem().Underlying().(*types.Basic); !ok || b.Kind() != types.String {
-			return
-		}
-		if args, ok := builtinCall(st.Val, "append"); ok && m.x.Cell(args[0]) == al {
-			if found == nil || al.Pos() < found.Pos() {
-				found = al
+		flow(m.x.Cell(st.Val))
+	})
+	if len(cells) == 0 {
+		return nil
+	}
+	// the list the function reports from: one that flows into no other; the function's own variable
+	// rather than one of an inlined helper, the earliest declared otherwise
+	own := func(al *ssa.Alloc) bool {
+		syn := m.fn.Syntax()
+		return syn != nil && al.Pos() >= syn.Pos() && al.Pos() <= syn.End()
+	}
+	inFam := map[*ssa.Alloc]bool{}
+	for c0 := range cells {
+		inFam[c0] = true
+	}
+	for f, ms := range flows {
+		if cells[f] {
+			for mm := range ms {
+				inFam[mm] = true
 			}
 		}
-	})
+	}
+	for changed := true; changed; {
+		changed = false
+		for f, ms := range flows {
+			if inFam[f] {
+				for mm := range ms {
+					if !inFam[mm] {
+						inFam[mm] = true
+						changed = true
+					}
+				}
+			}
+		}
+	}
+	var found *ssa.Alloc
+	better := func(a, b *ssa.Alloc) bool { // a before b
+		if b == nil {
+			return true
+		}
+		sa, sb := len(flows[a]) == 0, len(flows[b]) == 0
+		if sa != sb {
+			return sa
+		}
+		if own(a) != own(b) {
+			return own(a)
+		}
+		return a.Pos() < b.Pos()
+	}
+	for al := range inFam {
+		if better(al, found) {
+			found = al
+		}
+	}
+	// the family: every list of messages of the function (different ways through it may use different ones:
+	// the short-list case of a model one, its concurrent case another); the lists it reports from are those
+	// that flow into no other
+	fam := map[*ssa.Alloc]bool{}
+	sinks := map[*ssa.Alloc]bool{}
+	for al := range inFam {
+		fam[al] = true
+		if len(flows[al]) == 0 {
+			sinks[al] = true
+		}
+	}
+	m.x.listSinks = sinks
+	if m.c.errFam == nil {
+		m.c.errFam = map[*ssa.Alloc]map[*ssa.Alloc]bool{}
+	}
+	m.c.errFam[found] = fam
 	return found
 }
 
+// inErrFamily: cell is the list e or a list whose content is handed on into e.
+func (c *Ctx) inErrFamily(e, cell *ssa.Alloc) bool {
+	if e == nil || cell == nil {
+		return false
+	}
+	return cell == e || c.errFam[e][cell]
+}
+
+// isErrListStore: a message is added to the list e or to a list that is handed on into it.
 func (m *engFn) isErrListStore(in ssa.Instruction, e *ssa.Alloc) bool {
 	st, ok := in.(*ssa.Store)
 	if !ok || e == nil {
 		return false
 	}
-	if m.x.ResolveAddr(st.Addr) != ssa.Value(e) {
+	al, isAl := m.x.ResolveAddr(st.Addr).(*ssa.Alloc)
+	if !isAl || !m.c.inErrFamily(e, al) {
 		return false
 	}
 	args, ok := builtinCall(st.Val, "append")
-	return ok && m.x.Cell(args[0]) == e
+	return ok && m.c.inErrFamily(e, m.x.Cell(args[0]))
 }
 
 func isNewError(v ssa.Value) bool {
@@ -1063,7 +1167,7 @@ func (c *Ctx) ruleErrSurface(rule string, fn *ssa.Function) {
 		emptyEdges := map[edgeKey]bool{}
 		for _, b := range fn.Blocks {
 			if iff, ok := b.Instrs[len(b.Instrs)-1].(*ssa.If); ok {
-				if arg, nonEmpty, ok := x.lenCmpO(iff.Cond); ok && x.Cell(arg) == E {
+				if arg, nonEmpty, ok := x.lenCmpO(iff.Cond); ok && x.readsList(arg, E) {
 					if nonEmpty {
 						emptyEdges[edgeKey{b, 1}] = true
 					} else {
@@ -1081,7 +1185,7 @@ func (c *Ctx) ruleErrSurface(rule string, fn *ssa.Function) {
 		// guard on the list
 		emptyKnown, nonEmptyKnown := false, false
 		for _, g := range x.GuardsOf(r.Block()) {
-			if arg, nonEmpty, ok := x.lenCmpO(g.Cond); ok && x.Cell(arg) == E {
+			if arg, nonEmpty, ok := x.lenCmpO(g.Cond); ok && x.readsList(arg, E) {
 				if nonEmpty == g.Pol {
 					nonEmptyKnown = true
 				} else {
@@ -1475,7 +1579,7 @@ func (c *Ctx) ruleStageGate(rule string, fn *ssa.Function, stages []*stage, E *s
 		if u, ok := iff.Cond.(*ssa.UnOp); ok && u.Op == token.NOT && x.Origin(u.X) == ssa.Value(bPar) {
 			forbidden[edgeKey{b, 1}] = true
 		}
-		if arg, nonEmpty, ok := x.lenCmpO(iff.Cond); ok && x.Cell(arg) == E {
+		if arg, nonEmpty, ok := x.lenCmpO(iff.Cond); ok && x.readsList(arg, E) {
 			if nonEmpty {
 				forbidden[edgeKey{b, 1}] = true // list empty: continue allowed
 			} else {
@@ -1601,7 +1705,7 @@ func (c *Ctx) ruleSyncSingles(rule string, fn *ssa.Function, fos []*fanout, E *s
 			c.Check(rule, key+"/partition", okFan, e.call.Pos(), "rules[len-1] runs after the joined fan-out over exactly rules[0:len-1) of the same list")
 			empty := false
 			for _, g := range x.GuardsOf(e.call.Block()) {
-				if arg, nonEmpty, ok := x.lenCmpO(g.Cond); ok && E != nil && x.Cell(arg) == E && nonEmpty != g.Pol {
+				if arg, nonEmpty, ok := x.lenCmpO(g.Cond); ok && E != nil && x.readsList(arg, E) && nonEmpty != g.Pol {
 					empty = true
 				}
 			}
